@@ -8,11 +8,12 @@ use std::os::unix::process::ExitStatusExt;
 use std::process::{Command, Stdio};
 use std::time::{Duration, Instant};
 
-pub const CONSTRUCTS: [&str; 51] = [
+pub const CONSTRUCTS: [&str; 54] = [
     "neg", "not", "add", "and", "call", "builtin", "list", "map", "ifcond", "ifelse", "paren", "index", "contains", "listfirst",
     "listcomma", "listmap", "mapcomma", "ifthen", "callsum", "subright", "string", "negidx", "listidx", "mapidx", "indexnum",
     "skipeq", "skipand", "skipor", "skipif", "skiplist", "skipmap", "skipcallarg", "escapes", "adderr", "negerr", "listerr", "metalist", "metamap", "metaneg",
     "chain-eq", "chain-neq", "chain-gt", "chain-lte", "chain-sub", "chain-mult", "chain-div", "chain-rem", "chain-or", "chain-bitand", "chain-bitor", "chain-bitxor",
+    "flatcontains", "flatcontainslate", "flatlistcalls",
 ];
 pub const OPS: [&str; 13] = [
     "parse", "parse-rule", "display", "debug", "clone", "compare", "drop", "evaluate", "evaluate-in-ruleset", "compare-rules", "debug-rule", "drop-ruleset", "parse-rule-bare-comment",
@@ -106,7 +107,7 @@ fn known_safe(ctx: &Ctx, sig: &str) -> Option<(usize, String)> {
 
 pub fn run(ctx: &Ctx) {
     ctx.set_rule(
-        "Generated: expression texts of 51 recursive constructs (unary - and ! chains, left-deep chains of every binary operator (a+a+..., a != a != ..., a or a or ...), nested user \
+        "Generated: expression texts of 51 recursive constructs and 3 flat ones (membership in a list literal of N items, a list of N calls) (unary - and ! chains, left-deep chains of every binary operator (a+a+..., a != a != ..., a or a or ...), nested user \
          calls, nested built-in calls, nested lists with the nested element last / first / before a trailing comma / inside a map, \
          nested maps (also with trailing comma), if nested in condition / then / else, parentheses, index chains, nested contains, \
          right-nested subtraction, calls of sums, one long string literal of escapes, deep terms followed by a numeric index, numeric \
